@@ -433,6 +433,12 @@ class SpecEval(object):
                 ih = ex.heap_get(self.st, 'INIT:' + ex.elem_key(s.elem), arr(arr(BOOL)))
                 k = const('ik?', INT)
                 return forall([k], implies(and_(le(add(s.off, lo), k), lt(k, add(s.off, hi))), select(select(ih, s.arr), k)), [select(select(ih, s.arr), k)])
+            if name == 'unowned':
+                s = self.ev(args[0])
+                lo, hi = self.term(args[1]), self.term(args[2])
+                oh = ex.heap_get(self.st, 'OWN:' + ex.elem_key(s.elem), arr(arr(BOOL)))
+                k = const('uk?', INT)
+                return forall([k], implies(and_(le(add(s.off, lo), k), lt(k, add(s.off, hi))), not_(select(select(oh, s.arr), k))), [select(select(oh, s.arr), k)])
             if name == 'fresh':
                 v = self.ev(args[0])
                 t = v.arr if isinstance(v, (SliceV, StrV)) else ex.scalar_term(v)
